@@ -466,3 +466,30 @@ pub fn echo_rich_empty<Q: CustomQuery>(
     }
     Ok(r)
 }
+
+// ---------------------------------------------------------------------------------------------
+// sub-message builder receivers (C08)
+
+pub fn base_wasm() -> cw::WasmMsg {
+    cw::WasmMsg::Execute { contract_addr: "remote".into(), msg: Binary::from(b"{\"m\":1}".to_vec()), funds: vec![Coin { denom: "atom".into(), amount: Uint128::new(3) }] }
+}
+
+pub fn base_cosmos() -> cw::CosmosMsg<Empty> {
+    cw::CosmosMsg::Bank(cw::BankMsg::Send { to_address: "to".into(), amount: vec![Coin { denom: "btc".into(), amount: Uint128::new(9) }] })
+}
+
+/// An existing sub-message with a pre-set id / payload / reply trigger and the gas limit given in extra.
+pub fn base_submsg(extra: &Value) -> cw::SubMsg<Empty> {
+    cw::SubMsg {
+        id: 4242,
+        msg: base_wasm().into(),
+        payload: Binary::from(vec![9u8, 9, 9]),
+        gas_limit: extra.get("gas_limit").and_then(|g| g.as_u64()),
+        reply_on: cw::ReplyOn::Never,
+    }
+}
+
+/// JSON string holding the Debug rendering (for values that are not Serialize).
+pub fn jdbg<T: Debug>(t: &T) -> String {
+    serde_json::to_string(&format!("{:?}", t)).unwrap()
+}
